@@ -11,7 +11,7 @@ use atomic::Atomic;
 use static_assertions::const_assert;
 
 use crate::ebr_impl::{global_epoch, Guard, Tagged};
-use crate::utils::{Raw, RcInner};
+use crate::utils::{strong_count_of, Raw, RcInner};
 use crate::{Weak, WeakSnapshot};
 
 /// A common trait for reference-counted object types.
@@ -476,7 +476,7 @@ impl<T: RcObject> Rc<T> {
             drop(obj);
             return [(); N].map(|_| Self::null());
         }
-        let ptr = RcInner::alloc(obj, N as _);
+        let ptr = RcInner::alloc(obj, strong_count_of(N));
         [(); N].map(|_| Self {
             ptr: Raw::from(ptr),
             _marker: PhantomData,
@@ -499,7 +499,7 @@ impl<T: RcObject> Rc<T> {
                 ptr: Raw::null(),
             };
         }
-        let ptr = RcInner::alloc(obj, count as _);
+        let ptr = RcInner::alloc(obj, strong_count_of(count));
         NewRcIter {
             remain: count,
             ptr: Raw::from(ptr),
